@@ -1,8 +1,57 @@
 import Isotp.PyAgree.SockOpts
 import Isotp.PyAgree.PyCan
+import Isotp.PyAgree.SockGuards
 import Isotp.Proofs.Sock
 /-!
-  Source agreement for the constructors / readers.
+  Source agreement for the readers of the three SocketCAN option structs, and for the constructors / thin delegations around them:
+  `isotp/tpsock/opts.py` (`assert_is_socket`, `GeneralOpts` / `FlowControlOpts` / `LinkLayerOpts` `.__init__` and `.read`),
+  `isotp/tpsock/__init__.py` (`socket.__init__`, `settimeout`, `gettimeout`, `fileno`), `isotp/can_message.py` (`CanMessage.__init__`),
+  `isotp/protocol.py` (`python_can_tx_canbus_3minus`, `_make_python_can_tx_func`, `CanStack.__init__`, `CanStack.set_bus`,
+  `NotifierBasedCanStack.__init__`, `TransportLayer.Events.__init__`, `TransportLayerLogic._set_rxfn`).  First interpreter (`runFn`),
+  FOR ALL INPUTS; the primitives of the object world are ARBITRARY functions wherever possible, so that a run equation of the form
+  "`runFn … = do let d ← G [a, b, c]; …`" says: this primitive is applied exactly once, to exactly these arguments, at this point.
+
+  ## Presentation
+
+  1. readers (`readM isSock G`): the socket argument `s` is any value `v`; `isinstance(v, socket_module.socket)` is a predicate `isSock`;
+     `assert_is_socket` is a `proc` DEFINED AS ITS OWN SOURCE (`assertIsSocket` runs `Src.module_assert_is_socket`;
+     `assert_is_socket_agrees`); `cls()` is the fresh object `.meth "o"` (its fields are `None` by `*_init_agrees`; all of them are
+     overwritten before anything reads them); `s.getsockopt` is ANY `G`; `struct.unpack` is `structUnpack`, the inverse of
+     `SockOpts.structPack` (`structUnpack_pack_LLBBBB / _BBB / _L`: exact size or `struct.error`); the dumper's
+     `"o.a,o.b,…:=__unpack__"` is `unpackProc` on the targets its name lists (`unpackName_gen / _fc / _ll` tie the names in the dump to
+     the target lists by `decide`): `ValueError` on a length mismatch, otherwise the targets are bound in order.  Frame (`ReadFrame`):
+     `SOL_CAN_ISOTP ↦ Sock.solCanIsotp` (as SockOpts.lean), the option number = the dumped module constant (`constEnv`),
+     `cls.struct_size ↦ 12 / 3 / 3` (class bodies: `4 + 4 + 1 + 1 + 1 + 1`, `3`, `3`).
+     Against the model: `kGetsockopt k` = the kernel's `getsockopt` on `Sock.Kernel` (the option's uapi layout cut to the buffer
+     length; any other level / option is an error).
+  2. `socket.__init__` (`sockInitM supported K ST`): `check_support()` raises `NotImplementedError` iff `¬ supported`; the local
+     `from . import opts` (`__import__`) does nothing to the object; the kernel socket constructor is ANY `K`, `self.settimeout` ANY `ST`.
+  3. `CanMessage.__init__`: no primitive.
+  4. adapters: `can.Message(kw…)` ANY `K`, `owner.bus.send` ANY `S` (as PyCan.lean); `inspect.signature`, `__attr__`, `functools.partial`
+     ANY `Sg`, `At`, `P`.
+  5. `CanStack` / `NotifierBasedCanStack` (`stackM isBus isNotif MK D U B`): see the head of section 5; `recBase` is the recording base
+     constructor of LayerInit.lean section 3 (same history key `#base_init.calls`).
+  6. `threading.Event()` is the flag of a fresh event: `False`.
+
+  ## Theorems
+
+  1. `assert_is_socket_agrees`; `general_opts_read_run`, `flow_control_opts_read_run`, `link_layer_opts_read_run` (any `G`; the
+     non-socket case is `ValueError` before anything else: `read_rejects_non_socket`); `general_opts_read_agrees`,
+     `flow_control_opts_read_agrees`, `link_layer_opts_read_agrees` (kernel of the model: the attributes are `parseOpts (layoutOpts
+     s.k.opts)` etc., field by field in the kernel's order) and `*_read_attrs` (these ARE the `o.*` bindings SockOpts.lean's `genEnv` /
+     `fcEnv` / `llEnv` start `write` from); `*_read_src` (the dumped bodies are the common shape `readerBody` with option name, format
+     string and target list as stated).  Section 7: `writeOpts_result`, `general_opts_read_after_write`, `writeOpts_keeps`,
+     `writeFc_result`, `writeLl_result`, `flow_control_opts_read_after_write`, `link_layer_opts_read_after_write`.
+  2. `general_opts_init_agrees`, `flow_control_opts_init_agrees`, `link_layer_opts_init_agrees`, `init_fields_are_read_targets`;
+     `socket_init_agrees`, `socket_init_is_initial`, `socket_settimeout_agrees`, `socket_gettimeout_agrees`, `socket_fileno_agrees`.
+  3. `can_message_init_agrees`, `can_message_init_shows`.
+  4. `python_can_tx_3minus_agrees`, `python_can_tx_3minus_once`, `python_can_tx_3minus_same_values`, `kwName_3minus`,
+     `kws3minus_no_dlc`, `kws3minus_vs_3plus`; `make_python_can_tx_func_src`, `make_python_can_tx_func_branches`, and the reported GAP
+     `make_python_can_tx_func_in_gap` (the frozen interpreter cannot evaluate `'is_extended_id' in message_input_args` to `True`: no
+     `_agrees` theorem is claimed for the membership test).
+  5. `can_stack_set_bus_agrees`, `can_stack_init_agrees`, `notifier_stack_init_agrees`, `can_stack_init_calls_base_once`.
+  6. `events_init_agrees`, `events_init_shows_cleared`, `events_init_obj`, `set_rxfn_agrees`.
+  Section 8: one non-vacuity `example` per group.
 -/
 set_option linter.unusedSimpArgs false
 set_option linter.unusedVariables false
@@ -431,4 +480,1124 @@ theorem link_layer_opts_read_attrs (s : Sock) (x y z : PyVal) (env : Env) :
   simp only [llTargets, List.mem_cons, List.not_mem_nil, or_false] at hk
   rcases hk with rfl | rfl | rfl <;> simp [afterRead, llTargets, bindAll, set_get, llEnv_o1, llEnv_o2, llEnv_o3]
 
+/-! ## 2. the constructors of the option structs and of the socket wrapper -/
+
+/-- **`GeneralOpts.__init__`**: every field is `None` (nothing else is touched, no method is called) -/
+theorem general_opts_init_agrees (M : Meths) (env : Env) :
+    runFn M env Src.GeneralOpts_init =
+      .ok (pnone, (((((env.set "self.optflag" pnone).set "self.frame_txtime" pnone).set "self.ext_address" pnone).set
+        "self.txpad" pnone).set "self.rxpad" pnone).set "self.rx_ext_address" pnone) := by
+  simp [runFn, Src.GeneralOpts_init, execBlock, execStmt, eval]
+
+/-- **`FlowControlOpts.__init__`** -/
+theorem flow_control_opts_init_agrees (M : Meths) (env : Env) :
+    runFn M env Src.FlowControlOpts_init =
+      .ok (pnone, ((env.set "self.stmin" pnone).set "self.bs" pnone).set "self.wftmax" pnone) := by
+  simp [runFn, Src.FlowControlOpts_init, execBlock, execStmt, eval]
+
+/-- **`LinkLayerOpts.__init__`** -/
+theorem link_layer_opts_init_agrees (M : Meths) (env : Env) :
+    runFn M env Src.LinkLayerOpts_init =
+      .ok (pnone, ((env.set "self.mtu" pnone).set "self.tx_dl" pnone).set "self.tx_flags" pnone) := by
+  simp [runFn, Src.LinkLayerOpts_init, execBlock, execStmt, eval]
+
+/-- the fields each `__init__` creates are exactly the attributes its `read` binds (with `self` = the fresh object `o`) -/
+theorem init_fields_are_read_targets :
+    genTargets = ["optflag", "frame_txtime", "ext_address", "txpad", "rxpad", "rx_ext_address"].map ("o." ++ ·) ∧
+    fcTargets.Perm (["stmin", "bs", "wftmax"].map ("o." ++ ·)) ∧
+    llTargets = ["mtu", "tx_dl", "tx_flags"].map ("o." ++ ·) := by decide
+
+/-- Python's `timeout is not None and timeout > 0`, on a value: `False` for `None`, the order comparison with `0` for a number
+    (`int`, `bool`, `float`, infinities; `nan > 0` is `False`), `TypeError` for anything else -/
+def timeoutCond (v : PyVal) : Except PErr Bool :=
+  if v.isNone then .ok false else if isNumber v then numLt (.int 0) v else .error (.exc .TypeError)
+
+theorem timeoutCond_int (i : Int) : timeoutCond (.int i) = .ok (decide (0 < i)) := by
+  simp [timeoutCond, PyVal.isNone, isNumber, numLt, PyVal.isInt, PyVal.intVal]
+  congr
+theorem timeoutCond_float (n : Int) (d : Nat) : timeoutCond (.float n d) = .ok (decide (0 < n)) := by
+  simp [timeoutCond, PyVal.isNone, isNumber, numLt, PyVal.isInt, PyVal.intVal]
+theorem timeoutCond_none : timeoutCond .none = .ok false := rfl
+
+theorem eval_timeoutCond (M : Meths) (env : Env) (v : PyVal) (h : env "timeout" = some (.sc (.py v))) :
+    (eval M env (.and_ (.isNotNone (.var "timeout")) (.cmp .gt (.var "timeout") (.int 0))) >>= truthy) = timeoutCond v := by
+  cases v <;> simp [eval, h, timeoutCond, PyVal.isNone, isNumber, numLt, evalCmp, PyVal.isInt, PyVal.intVal, pnone, pint] <;> rfl
+
+/-- the world of `socket.__init__`: `check_support()` raises `NotImplementedError` unless ISO-TP sockets are supported; the
+    `from . import opts` has no effect on the object; the kernel socket constructor `socket_module.socket` is ANY function `K` of its
+    arguments; `self.settimeout` is ANY procedure `ST` -/
+def sockInitM (supported : Bool) (K : List PV → Except PErr PV) (ST : List PV → Env → Except PErr Env) : Meths where
+  fn n args _ :=
+    match n with
+    | "socket_module.socket" => K args
+    | n => .error (.unsupported ("call " ++ n))
+  proc n args env :=
+    match n, args with
+    | "check_support", [] => if supported then .ok env else .error (.exc .NotImplementedError)
+    | "__import__", [.str "opts"] => .ok env
+    | "self.settimeout", args => ST args env
+    | n, _ => .error (.unsupported ("call " ++ n))
+
+/-- the wrapper's attributes after the assignments of `__init__`, around the kernel socket object `sk` -/
+def sockInitEnv (env : Env) (sk : PV) : Env :=
+  ((((env.set "self.interface" pnone).set "self.address" pnone).set "self.bound" (pbool false)).set "self.closed" (pbool false)).set
+    "self._socket" sk
+
+/-- **`socket.__init__(timeout)`**: `check_support()` comes first (unsupported: `NotImplementedError`, and nothing else happens, whatever
+    the other primitives do); then `interface = address = None`, `bound = closed = False`, the kernel socket is created by ONE call
+    `socket_module.socket(AF_CAN, SOCK_DGRAM, CAN_ISOTP)`, and `self.settimeout(timeout)` is called iff
+    `timeout is not None and timeout > 0` (`timeoutCond`), once, with `timeout` itself. -/
+theorem socket_init_agrees (supported : Bool) (K : List PV → Except PErr PV) (ST : List PV → Env → Except PErr Env) (env : Env)
+    (v : PyVal) (af dg pr : PV) (ht : env "timeout" = some (.sc (.py v)))
+    (h1 : env "socket_module.AF_CAN" = some af) (h2 : env "socket_module.SOCK_DGRAM" = some dg)
+    (h3 : env "socket_module.CAN_ISOTP" = some pr) :
+    runFn (sockInitM supported K ST) env Src.socket_init =
+      if supported then
+        (do let sk ← K [af, dg, pr]
+            let c ← timeoutCond v
+            if c then (ST [.sc (.py v)] (sockInitEnv env sk)).map (fun e => (pnone, e)) else .ok (pnone, sockInitEnv env sk))
+      else .error (.exc .NotImplementedError) := by
+  cases supported
+  · simp [runFn, Src.socket_init, execBlock, execStmt, evalArgs, nb "check_support" (by decide), sockInitM]
+  · simp only [if_true]
+    have e7 : ∀ e : Env, e "socket_module.AF_CAN" = some af → e "socket_module.SOCK_DGRAM" = some dg →
+        e "socket_module.CAN_ISOTP" = some pr →
+        eval (sockInitM true K ST) e (.call "socket_module.socket" (.cons (.var "socket_module.AF_CAN")
+          (.cons (.var "socket_module.SOCK_DGRAM") (.cons (.var "socket_module.CAN_ISOTP") .nil)))) = K [af, dg, pr] := by
+      intro e a b c
+      simp [eval, evalArgs, a, b, c, nb "socket_module.socket" (by decide), sockInitM]
+    cases hK : K [af, dg, pr] with
+    | error e =>
+      simp [runFn, Src.socket_init, execBlock, execStmt, evalArgs, eval, nb "check_support" (by decide), nb "__import__" (by decide),
+        nb "socket_module.socket" (by decide), sockInitM, set_get, h1, h2, h3, hK]
+    | ok sk =>
+      have hc := eval_timeoutCond (sockInitM true K ST) (sockInitEnv env sk) v (by simp [sockInitEnv, set_get, ht])
+      have hts : sockInitEnv env sk "timeout" = some (.sc (.py v)) := by simp [sockInitEnv, set_get, ht]
+      have s8 : execStmt (sockInitM true K ST) (sockInitEnv env sk)
+          (.ite (.and_ (.isNotNone (.var "timeout")) (.cmp .gt (.var "timeout") (.int 0)))
+            (.cons (.expr (.call "self.settimeout" (.cons (.var "timeout") .nil))) .nil) .nil) =
+          (timeoutCond v >>= fun c => if c then (ST [.sc (.py v)] (sockInitEnv env sk)).map .next else .ok (.next (sockInitEnv env sk))) := by
+        rw [← hc]
+        simp only [execStmt]
+        cases eval (sockInitM true K ST) (sockInitEnv env sk)
+            (.and_ (.isNotNone (.var "timeout")) (.cmp .gt (.var "timeout") (.int 0))) with
+        | error e => rfl
+        | ok x =>
+          simp only [ok_bind]
+          cases truthy x with
+          | error e => rfl
+          | ok c =>
+            cases c
+            · simp [execBlock]
+            · simp [execBlock, execStmt, evalArgs, eval, hts, nb "self.settimeout" (by decide), sockInitM]
+              cases ST [.sc (.py v)] (sockInitEnv env sk) <;> rfl
+      have pre : execBlock (sockInitM true K ST) env Src.socket_init =
+          execBlock (sockInitM true K ST) (sockInitEnv env sk)
+            (.cons (.ite (.and_ (.isNotNone (.var "timeout")) (.cmp .gt (.var "timeout") (.int 0)))
+              (.cons (.expr (.call "self.settimeout" (.cons (.var "timeout") .nil))) .nil) .nil) .nil) := by
+        simp [Src.socket_init, execBlock, execStmt, evalArgs, eval, nb "check_support" (by decide), nb "__import__" (by decide),
+          nb "socket_module.socket" (by decide), sockInitM, set_get, h1, h2, h3, hK, sockInitEnv]
+      rw [runFn, pre, execBlock, s8]
+      cases timeoutCond v with
+      | error e => rfl
+      | ok c =>
+        cases c
+        · simp [execBlock]
+        · simp only [ok_bind, if_true]
+          cases ST [.sc (.py v)] (sockInitEnv env sk) <;> simp [execBlock]
+
+/-- the constructed wrapper is the model's initial `Sock` (`{}`: not bound, not closed, no kernel call made yet), and has neither
+    interface nor address -/
+theorem socket_init_is_initial (env : Env) (sk : PV) :
+    sockInitEnv env sk "self.bound" = some (pbool ({} : Sock).bound) ∧
+    sockInitEnv env sk "self.closed" = some (pbool ({} : Sock).closed) ∧
+    sockInitEnv env sk "self.interface" = some pnone ∧ sockInitEnv env sk "self.address" = some pnone ∧
+    sockInitEnv env sk "self._socket" = some sk ∧ ({} : Sock).calls = [] ∧
+    SockGuards.guardEnv ({} : Sock) (sockInitEnv env sk) "self.bound" = sockInitEnv env sk "self.bound" := by
+  simp [sockInitEnv, set_get, SockGuards.guardEnv]
+
+/-- **`socket.settimeout(value)`** is `self._socket.settimeout(value)`: one call, same argument, nothing else -/
+theorem socket_settimeout_agrees (M : Meths) (env : Env) (x : PV) (h : env "value" = some x) :
+    runFn M env Src.socket_settimeout = (M.proc "self._socket.settimeout" [x] env).map (fun e => (pnone, e)) := by
+  simp [runFn, Src.socket_settimeout, execBlock, execStmt, evalArgs, eval, h, nb "self._socket.settimeout" (by decide)]
+  cases M.proc "self._socket.settimeout" [x] env <;> rfl
+
+/-- **`socket.gettimeout()`** returns `self._socket.gettimeout()` -/
+theorem socket_gettimeout_agrees (M : Meths) (env : Env) :
+    runFn M env Src.socket_gettimeout = (M.fn "self._socket.gettimeout" [] env).map (fun r => (r, env)) := by
+  simp [runFn, Src.socket_gettimeout, execBlock, execStmt, evalArgs, eval, nb "self._socket.gettimeout" (by decide)]
+  cases M.fn "self._socket.gettimeout" [] env <;> rfl
+
+/-- **`socket.fileno()`** returns `self._socket.fileno()` -/
+theorem socket_fileno_agrees (M : Meths) (env : Env) :
+    runFn M env Src.socket_fileno = (M.fn "self._socket.fileno" [] env).map (fun r => (r, env)) := by
+  simp [runFn, Src.socket_fileno, execBlock, execStmt, evalArgs, eval, nb "self._socket.fileno" (by decide)]
+  cases M.fn "self._socket.fileno" [] env <;> rfl
+
+/-! ## 3. `CanMessage.__init__` (isotp/can_message.py) -/
+
+/-- **`CanMessage.__init__`**: the six attributes are the six arguments, `extended_id` being stored as `is_extended_id`; nothing else is
+    touched and no method is called -/
+theorem can_message_init_agrees (M : Meths) (env : Env) (a d b x f r : PV)
+    (h1 : env "arbitration_id" = some a) (h2 : env "dlc" = some d) (h3 : env "data" = some b) (h4 : env "extended_id" = some x)
+    (h5 : env "is_fd" = some f) (h6 : env "bitrate_switch" = some r) :
+    runFn M env Src.CanMessage_init =
+      .ok (pnone, (((((env.set "self.arbitration_id" a).set "self.dlc" d).set "self.data" b).set "self.is_extended_id" x).set
+        "self.is_fd" f).set "self.bitrate_switch" r) := by
+  simp [runFn, Src.CanMessage_init, execBlock, execStmt, eval, set_get, h1, h2, h3, h4, h5, h6]
+
+/-- the constructor's frame for the model message `m` -/
+def canMsgCtorEnv (m : CanMsg) : Env := fun k =>
+  match k with
+  | "self" => some (.meth "self")
+  | "arbitration_id" => some (pint m.id)
+  | "dlc" => some (pint m.dlc)
+  | "data" => some (.bytes m.data)
+  | "extended_id" => some (pbool m.ext)
+  | "is_fd" => some (pbool m.fd)
+  | "bitrate_switch" => some (pbool m.brs)
+  | _ => none
+
+/-- the object shows the model's `CanMsg`, attribute by attribute (what `PyCan.IsotpMsgShows` / `AddressEnv.msgEnv` read under `msg.`) -/
+def SelfShows (env : Env) (m : CanMsg) : Prop :=
+  env "self.arbitration_id" = some (pint m.id) ∧ env "self.dlc" = some (pint m.dlc) ∧ env "self.data" = some (.bytes m.data) ∧
+  env "self.is_extended_id" = some (pbool m.ext) ∧ env "self.is_fd" = some (pbool m.fd) ∧ env "self.bitrate_switch" = some (pbool m.brs)
+
+theorem can_message_init_shows (M : Meths) (m : CanMsg) :
+    ∃ env', runFn M (canMsgCtorEnv m) Src.CanMessage_init = .ok (pnone, env') ∧ SelfShows env' m := by
+  refine ⟨_, can_message_init_agrees M (canMsgCtorEnv m) _ _ _ _ _ _ rfl rfl rfl rfl rfl rfl, ?_⟩
+  simp [SelfShows, set_get]
+
+/-! ## 4. `python_can_tx_canbus_3minus`, `_make_python_can_tx_func` (isotp/protocol.py) -/
+
+/-- the keyword names of a call, as the dumper appends them to the callee's name -/
+def kwName (callee : String) (kws : List String) : String := callee ++ String.join (kws.map ("#" ++ ·))
+
+/-- the keywords of the `can.Message(...)` call of the `3minus` adapter: `extended_id` (python-can < 3), and NO `dlc` -/
+def kws3minus : List String := ["arbitration_id", "data", "extended_id", "is_fd", "bitrate_switch"]
+/-- those of the `3plus` adapter (PyCan.lean) -/
+def kws3plus : List String := ["arbitration_id", "data", "is_extended_id", "is_fd", "bitrate_switch"]
+
+theorem kwName_3minus : kwName "can.Message" kws3minus = "can.Message#arbitration_id#data#extended_id#is_fd#bitrate_switch" := by decide
+theorem kwName_3plus : kwName "can.Message" kws3plus = "can.Message#arbitration_id#data#is_extended_id#is_fd#bitrate_switch" := by decide
+theorem kws3minus_no_dlc : "dlc" ∉ kws3minus ∧ "is_extended_id" ∉ kws3minus ∧ "extended_id" ∈ kws3minus := by decide
+/-- the two adapters differ in exactly that one keyword -/
+theorem kws3minus_vs_3plus : kws3plus = kws3minus.map (fun k => if k = "extended_id" then "is_extended_id" else k) := by decide
+
+/-- `can.Message(arbitration_id=, data=, extended_id=, is_fd=, bitrate_switch=)` is ANY function `K` of its argument list;
+    `owner.bus.send` is ANY primitive procedure `S` -/
+def pyCanTx3minusM (K : List PV → Except PErr PV) (S : List PV → Env → Except PErr Env) : Meths where
+  fn name args _ := if name = kwName "can.Message" kws3minus then K args else .error (.unsupported ("call " ++ name))
+  proc name args env :=
+    match name with
+    | "owner.bus.send" => S args env
+    | _ => .error (.unsupported ("call " ++ name))
+
+theorem pyCanTx3minusM_lookups (K : List PV → Except PErr PV) (S : List PV → Env → Except PErr Env) (vs : List PV) (env : Env) :
+    (pyCanTx3minusM K S).fn "can.Message#arbitration_id#data#extended_id#is_fd#bitrate_switch" vs env = K vs ∧
+    (pyCanTx3minusM K S).proc "owner.bus.send" vs env = S vs env := by
+  simp [pyCanTx3minusM, kwName_3minus]
+
+/-- **`python_can_tx_canbus_3minus(owner, msg)` is the model's `isotpToPyCan`**, with the keyword names of python-can < 3: the run is
+    exactly "build ONE `can.Message` from the five fields of `isotpToPyCan m` (`PyCan.pyCanMessageArgs`: id, data, ext - passed as
+    `extended_id=` -, fd, brs; no `dlc`), then call `owner.bus.send` ONCE with that one object"; it returns `None` -/
+theorem python_can_tx_3minus_agrees (K : List PV → Except PErr PV) (S : List PV → Env → Except PErr Env) (env : Env) (m : CanMsg)
+    (h : IsotpMsgShows env m) :
+    runFn (pyCanTx3minusM K S) env Src.module_python_can_tx_canbus_3minus =
+      (do let v ← K (pyCanMessageArgs (isotpToPyCan m))
+          let env' ← S [v] env
+          .ok (pnone, env')) := by
+  obtain ⟨h1, h2, h3, h4, h5⟩ := h
+  simp [runFn, Src.module_python_can_tx_canbus_3minus, execBlock, execStmt, eval, evalArgs, h1, h2, h3, h4, h5,
+    nb "can.Message#arbitration_id#data#extended_id#is_fd#bitrate_switch" (by decide), nb "owner.bus.send" (by decide),
+    (pyCanTx3minusM_lookups K S _ env).1, (pyCanTx3minusM_lookups K S _ env).2, pyCanMessageArgs, isotpToPyCan]
+  cases K _ with
+  | error e => rfl
+  | ok v => simp only [ok_bind]; cases S [v] env <;> rfl
+
+/-- with the counting `send` of PyCan.lean: exactly one more call, the object sent is the `can.Message`, nothing else changes -/
+theorem python_can_tx_3minus_once (K : List PV → Except PErr PV) (env : Env) (m : CanMsg) (n : Int) (v : PV)
+    (h : IsotpMsgShows env m) (hn : env "#send_calls" = some (pint n)) (hK : K (pyCanMessageArgs (isotpToPyCan m)) = .ok v) :
+    ∃ env', runFn (pyCanTx3minusM K busSend) env Src.module_python_can_tx_canbus_3minus = .ok (pnone, env') ∧
+      env' "#send_calls" = some (pint (n + 1)) ∧ env' "#last_sent" = some v ∧
+      ∀ q, q ≠ "#send_calls" → q ≠ "#last_sent" → env' q = env q := by
+  refine ⟨(env.set "#last_sent" v).set "#send_calls" (pint (n + 1)), ?_, by simp [set_get], by simp [set_get], ?_⟩
+  · rw [python_can_tx_3minus_agrees K busSend env m h, hK]
+    simp only [ok_bind, busSend, hn]
+  · intro q h1 h2; simp [set_get, h1, h2]
+
+/-- both adapters hand `send` the same five values, in the same order: only the NAME of the third keyword differs -/
+theorem python_can_tx_3minus_same_values (K : List PV → Except PErr PV) (S : List PV → Env → Except PErr Env) (env : Env) (m : CanMsg)
+    (h : IsotpMsgShows env m) :
+    runFn (pyCanTx3minusM K S) env Src.module_python_can_tx_canbus_3minus =
+      runFn (pyCanTxMeths K S) env Src.module_python_can_tx_canbus_3plus := by
+  rw [python_can_tx_3minus_agrees K S env m h, python_can_tx_canbus_3plus_agrees K S env m h]
+
+/-! ### `_make_python_can_tx_func` -/
+
+/-- `_make_python_can_tx_func` with the membership test replaced by `c` -/
+def mkTxBody (c : PExpr) : PBlock :=
+  .cons (.assign "message_input_args" (.call "__attr__" (.cons (.call "inspect.signature" (.cons (.var "can.Message.__init__") .nil))
+    (.cons (.strLit "parameters") .nil))))
+  (.cons (.ite c
+    (.cons (.ret (.call "functools.partial" (.cons (.var "python_can_tx_canbus_3plus") (.cons (.var "owner") .nil)))) .nil)
+    (.cons (.ret (.call "functools.partial" (.cons (.var "python_can_tx_canbus_3minus") (.cons (.var "owner") .nil)))) .nil))
+  .nil)
+
+/-- the membership test of the source: `'is_extended_id' in message_input_args` -/
+def memTest : PExpr := .cmp .isIn (.strLit "is_extended_id") (.var "message_input_args")
+
+/-- the dumped source IS: bind `message_input_args = inspect.signature(can.Message.__init__).parameters`; if
+    `'is_extended_id' in message_input_args` return `functools.partial(python_can_tx_canbus_3plus, owner)`, else
+    `functools.partial(python_can_tx_canbus_3minus, owner)` -/
+theorem make_python_can_tx_func_src : Src.module_p_make_python_can_tx_func = mkTxBody memTest := rfl
+
+/-- `inspect.signature` is ANY `Sg`, the attribute of a computed value (`__attr__`) ANY `At`, `functools.partial` ANY `P` -/
+def mkTxM (Sg At P : List PV → Except PErr PV) : Meths where
+  fn name args _ :=
+    match name with
+    | "inspect.signature" => Sg args
+    | "__attr__" => At args
+    | "functools.partial" => P args
+    | n => .error (.unsupported ("call " ++ n))
+  proc name _ _ := .error (.unsupported ("call " ++ name))
+
+/-- what the frame of `_make_python_can_tx_func(owner)` holds -/
+structure MkTxFrame (env : Env) (ow init f3p f3m : PV) : Prop where
+  owner : env "owner" = some ow
+  init : env "can.Message.__init__" = some init
+  f3p : env "python_can_tx_canbus_3plus" = some f3p
+  f3m : env "python_can_tx_canbus_3minus" = some f3m
+
+/-- **`_make_python_can_tx_func(owner)`, branch structure** - for ANY test `c` in the place of the membership test that evaluates to a
+    boolean `b` once `message_input_args` is bound: `inspect.signature(can.Message.__init__)` is taken ONCE, its attribute `parameters`
+    is bound to `message_input_args`, and the result is `functools.partial(python_can_tx_canbus_3plus, owner)` if `b`, else
+    `functools.partial(python_can_tx_canbus_3minus, owner)` (one `partial` call, exactly these two arguments).
+    See `make_python_can_tx_func_in_gap` for why this is not stated with the source's own test. -/
+theorem make_python_can_tx_func_branches (Sg At P : List PV → Except PErr PV) (c : PExpr) (env : Env) (ow init f3p f3m : PV)
+    (hF : MkTxFrame env ow init f3p f3m)
+    (b : Bool) (hc : ∀ ps, eval (mkTxM Sg At P) (env.set "message_input_args" ps) c = .ok (pbool b)) :
+    runFn (mkTxM Sg At P) env (mkTxBody c) =
+      (do let sg ← Sg [init]
+          let ps ← At [sg, .str "parameters"]
+          let r ← P [if b then f3p else f3m, ow]
+          .ok (r, env.set "message_input_args" ps)) := by
+  obtain ⟨h1, h2, h3, h4⟩ := hF
+  have eP : ∀ (e : Env) (nm : String) (f : PV), e nm = some f → e "owner" = some ow →
+      execBlock (mkTxM Sg At P) e (.cons (.ret (.call "functools.partial" (.cons (.var nm) (.cons (.var "owner") .nil)))) .nil) =
+        (P [f, ow] >>= fun r => .ok (.returned r e)) := by
+    intro e nm f hf ho
+    simp [execBlock, execStmt, eval, evalArgs, hf, ho, nb "functools.partial" (by decide), mkTxM]
+  cases hS : Sg [init] with
+  | error e =>
+    simp [runFn, mkTxBody, execBlock, execStmt, eval, evalArgs, h2, nb "inspect.signature" (by decide), nb "__attr__" (by decide), mkTxM,
+      hS]
+  | ok sg =>
+    simp only [ok_bind]
+    cases hA : At [sg, .str "parameters"] with
+    | error e =>
+      simp [runFn, mkTxBody, execBlock, execStmt, eval, evalArgs, h2, nb "inspect.signature" (by decide), nb "__attr__" (by decide),
+        mkTxM, hS, hA]
+    | ok ps =>
+      have s1 : execStmt (mkTxM Sg At P) env (.assign "message_input_args" (.call "__attr__" (.cons (.call "inspect.signature"
+          (.cons (.var "can.Message.__init__") .nil)) (.cons (.strLit "parameters") .nil)))) =
+          .ok (.next (env.set "message_input_args" ps)) := by
+        simp [execStmt, eval, evalArgs, h2, nb "inspect.signature" (by decide), nb "__attr__" (by decide), mkTxM, hS, hA]
+      have ho : (env.set "message_input_args" ps) "owner" = some ow := by simp [set_get, h1]
+      rw [runFn, mkTxBody, execBlock_cons_ok _ _ _ _ _ s1, execBlock, exec_ite_bool _ _ _ _ _ b (hc ps)]
+      simp only [ok_bind]
+      cases b
+      · rw [if_neg (by simp), eP _ _ f3m (by simp [set_get, h4]) ho]
+        simp only [Bool.false_eq_true, if_false]
+        cases P [f3m, ow] <;> rfl
+      · rw [if_pos rfl, eP _ _ f3p (by simp [set_get, h3]) ho]
+        simp only [if_true]
+        cases P [f3p, ow] <;> rfl
+
+/-- **GAP (reported, not papered over)**: the frozen interpreter cannot express `'is_extended_id' in message_input_args`.  A string
+    literal evaluates to `PV.str`, the elements of a `PV.list` are scalars (`Sc`), and `pvEq (.str _) (.sc _) = false`; any value that is
+    not a `PV.list` makes `in` an interpreter error.  So under `eval` the source's own test is NEVER `True`, whatever
+    `inspect.signature(...).parameters` is presented as: the interpreted function would always choose the `3minus` adapter, which is NOT
+    what Python does when `is_extended_id` is a parameter of `can.Message.__init__`.  No agreement theorem is claimed for the test
+    itself. -/
+theorem make_python_can_tx_func_in_gap (M : Meths) (env : Env) (ps : PV) (h : env "message_input_args" = some ps) :
+    eval M env memTest = .ok (pbool false) ∨ ∃ e, eval M env memTest = .error e := by
+  cases ps with
+  | list xs =>
+    left
+    have : (xs.any fun x => pvEq (.str "is_extended_id") (.sc x)) = false := by
+      rw [List.any_eq_false]; intro x _; simp [pvEq]
+    simp [memTest, eval, h, this]
+  | sc x => right; exact ⟨.unsupported "in: right operand is not a list literal", by simp [memTest, eval, h, evalCmp]⟩
+  | bytes x => right; exact ⟨.unsupported "in: right operand is not a list literal", by simp [memTest, eval, h, evalCmp]⟩
+  | str x => right; exact ⟨.unsupported "in: right operand is not a list literal", by simp [memTest, eval, h, evalCmp]⟩
+  | meth x => right; exact ⟨.unsupported "in: right operand is not a list literal", by simp [memTest, eval, h, evalCmp]⟩
+
+/-! ## 5. `CanStack.__init__`, `CanStack.set_bus`, `NotifierBasedCanStack.__init__` (isotp/protocol.py)
+
+  Presentation: `_can_available` is a module-level boolean; `isinstance(x, can.BusABC)` / `isinstance(x, can.Notifier)` are predicates
+  `isBus` / `isNotif` on values; `_make_python_can_tx_func` is ANY function `MK`, the keyword call `dict(rxfn=, txfn=)` ANY function `D`
+  of `[rxfn, txfn]`, `kwargs.update` ANY procedure `U` that leaves the NAMES `args` / `kwargs` bound to the same objects (it mutates the
+  dict), the base constructor `super().__init__(*args, **kwargs)` ANY procedure `B` of `[args, kwargs]` (the dumper marks the star
+  arguments in the callee name `super().__init__#*#**`); `self.set_bus(bus)` is ITS OWN SOURCE (`CanStack_set_bus`). -/
+
+def busM (isBus isNotif : PV → Bool) : Meths where
+  fn n args _ :=
+    match n, args with
+    | "isinstance_BusABC", [v] => .ok (pbool (isBus v))
+    | "isinstance_Notifier", [v] => .ok (pbool (isNotif v))
+    | n, _ => .error (.unsupported ("call " ++ n))
+  proc n _ _ := .error (.unsupported ("call " ++ n))
+
+/-- **`CanStack.set_bus(bus)`**: `ValueError` unless `bus` is a `can.BusABC`; otherwise `self.bus = bus` and nothing else -/
+theorem can_stack_set_bus_agrees (M : Meths) (isBus : PV → Bool) (env : Env) (v : PV) (h : env "bus" = some v)
+    (hM : M.fn "isinstance_BusABC" [v] env = .ok (pbool (isBus v))) :
+    runFn M env Src.CanStack_set_bus = if isBus v then .ok (pnone, env.set "self.bus" v) else .error (.exc .ValueError) := by
+  cases hv : isBus v <;>
+    simp [runFn, Src.CanStack_set_bus, execBlock, execStmt, eval, evalArgs, h, nb "isinstance_BusABC" (by decide), hM, hv]
+
+/-- the callee `self.set_bus(v)`: the source of `CanStack.set_bus` run with the parameter `bus` bound to the argument -/
+def setBusCallee (isBus isNotif : PV → Bool) : List PV → Env → Except PErr Env
+  | [v], env => (runFn (busM isBus isNotif) (env.set "bus" v) Src.CanStack_set_bus).map (·.2)
+  | _, _ => .error (.exc .TypeError)
+
+theorem setBusCallee_eq (isBus isNotif : PV → Bool) (v : PV) (env : Env) (h : env "bus" = some v) :
+    setBusCallee isBus isNotif [v] env = if isBus v then .ok (env.set "self.bus" v) else .error (.exc .ValueError) := by
+  have e : env.set "bus" v = env := by
+    funext k; by_cases hk : k = "bus" <;> simp [set_get, hk, h]
+  rw [setBusCallee, e, can_stack_set_bus_agrees _ isBus env v h rfl]
+  cases isBus v <;> rfl
+
+def stackM (isBus isNotif : PV → Bool) (MK D : List PV → Except PErr PV) (U B : List PV → Env → Except PErr Env) : Meths where
+  fn n args env :=
+    match n with
+    | "_make_python_can_tx_func" => MK args
+    | "dict#rxfn#txfn" => D args
+    | n => (busM isBus isNotif).fn n args env
+  proc n args env :=
+    match n with
+    | "self.set_bus" => setBusCallee isBus isNotif args env
+    | "kwargs.update" => U args env
+    | "super().__init__#*#**" => B args env
+    | n => .error (.unsupported ("call " ++ n))
+
+section stackLookups
+variable (isBus isNotif : PV → Bool) (MK D : List PV → Except PErr PV) (U B : List PV → Env → Except PErr Env) (vs : List PV) (v : PV)
+  (env : Env)
+theorem stackM_isBus : (stackM isBus isNotif MK D U B).fn "isinstance_BusABC" [v] env = .ok (pbool (isBus v)) := rfl
+theorem stackM_isNotif : (stackM isBus isNotif MK D U B).fn "isinstance_Notifier" [v] env = .ok (pbool (isNotif v)) := rfl
+theorem stackM_mk : (stackM isBus isNotif MK D U B).fn "_make_python_can_tx_func" vs env = MK vs := rfl
+theorem stackM_dict : (stackM isBus isNotif MK D U B).fn "dict#rxfn#txfn" vs env = D vs := rfl
+theorem stackM_set_bus : (stackM isBus isNotif MK D U B).proc "self.set_bus" vs env = setBusCallee isBus isNotif vs env := rfl
+theorem stackM_update : (stackM isBus isNotif MK D U B).proc "kwargs.update" vs env = U vs env := rfl
+theorem stackM_base : (stackM isBus isNotif MK D U B).proc "super().__init__#*#**" vs env = B vs env := rfl
+end stackLookups
+
+/-- `U` leaves the keys `ks` as they are -/
+def Keeps (U : List PV → Env → Except PErr Env) (ks : List String) : Prop :=
+  ∀ vs e e', U vs e = .ok e' → ∀ k ∈ ks, e' k = e k
+
+/-- the arguments of the two constructors that both read -/
+structure StackFrame (env : Env) (avail : Bool) (sv bus rx ar kw : PV) : Prop where
+  avail : env "_can_available" = some (pbool avail)
+  self : env "self" = some sv
+  bus : env "bus" = some bus
+  rx : env "self._rx_canbus" = some rx
+  args : env "args" = some ar
+  kwargs : env "kwargs" = some kw
+
+/-- `kwargs.update(dict(rxfn=self._rx_canbus, txfn=_make_python_can_tx_func(self)))` followed by `super().__init__(*args, **kwargs)` -/
+def stackTail (MK D : List PV → Except PErr PV) (U B : List PV → Env → Except PErr Env) (sv rx ar kw : PV) (env : Env) :
+    Except PErr (PV × Env) := do
+  let tx ← MK [sv]
+  let d ← D [rx, tx]
+  let env1 ← U [d] env
+  let env2 ← B [ar, kw] env1
+  .ok (pnone, env2)
+
+def updateStmt : PStmt :=
+  .expr (.call "kwargs.update" (.cons (.call "dict#rxfn#txfn" (.cons (.var "self._rx_canbus")
+    (.cons (.call "_make_python_can_tx_func" (.cons (.var "self") .nil)) .nil))) .nil))
+def baseStmt : PStmt := .expr (.call "super().__init__#*#**" (.cons (.var "args") (.cons (.var "kwargs") .nil)))
+
+theorem stack_tail_run (isBus isNotif : PV → Bool) (MK D : List PV → Except PErr PV) (U B : List PV → Env → Except PErr Env)
+    (hU : Keeps U ["args", "kwargs"]) (env : Env) (sv rx ar kw : PV)
+    (h1 : env "self" = some sv) (h2 : env "self._rx_canbus" = some rx) (h3 : env "args" = some ar) (h4 : env "kwargs" = some kw) :
+    runFn (stackM isBus isNotif MK D U B) env (.cons updateStmt (.cons baseStmt .nil)) = stackTail MK D U B sv rx ar kw env := by
+  rw [stackTail]
+  cases hMK : MK [sv] with
+  | error e =>
+    simp [runFn, updateStmt, execBlock, execStmt, eval, evalArgs, h1, h2, nb "_make_python_can_tx_func" (by decide),
+      nb "dict#rxfn#txfn" (by decide), nb "kwargs.update" (by decide), stackM_mk, hMK]
+  | ok tx =>
+    simp only [ok_bind]
+    cases hD : D [rx, tx] with
+    | error e =>
+      simp [runFn, updateStmt, execBlock, execStmt, eval, evalArgs, h1, h2, nb "_make_python_can_tx_func" (by decide),
+        nb "dict#rxfn#txfn" (by decide), nb "kwargs.update" (by decide), stackM_mk, stackM_dict, hMK, hD]
+    | ok d =>
+      simp only [ok_bind]
+      cases hUU : U [d] env with
+      | error e =>
+        simp [runFn, updateStmt, execBlock, execStmt, eval, evalArgs, h1, h2, nb "_make_python_can_tx_func" (by decide),
+          nb "dict#rxfn#txfn" (by decide), nb "kwargs.update" (by decide), stackM_mk, stackM_dict, stackM_update, hMK, hD, hUU]
+      | ok env1 =>
+        have s1 : execStmt (stackM isBus isNotif MK D U B) env updateStmt = .ok (.next env1) := by
+          simp [updateStmt, execStmt, eval, evalArgs, h1, h2, nb "_make_python_can_tx_func" (by decide),
+            nb "dict#rxfn#txfn" (by decide), nb "kwargs.update" (by decide), stackM_mk, stackM_dict, stackM_update, hMK, hD, hUU]
+        have k3 : env1 "args" = some ar := (hU _ _ _ hUU "args" (by decide)).trans h3
+        have k4 : env1 "kwargs" = some kw := (hU _ _ _ hUU "kwargs" (by decide)).trans h4
+        rw [runFn, execBlock_cons_ok _ _ _ _ _ s1]
+        simp only [ok_bind]
+        simp [baseStmt, execBlock, execStmt, eval, evalArgs, k3, k4, nb "super().__init__#*#**" (by decide), stackM_base]
+        cases B [ar, kw] env1 <;> rfl
+
+theorem can_stack_init_src : Src.CanStack_init =
+    .cons (.ite (.not_ (.var "_can_available")) (.cons (.raise "RuntimeError") .nil) .nil)
+    (.cons (.expr (.call "self.set_bus" (.cons (.var "bus") .nil))) (.cons updateStmt (.cons baseStmt .nil))) := rfl
+
+/-- **`CanStack.__init__(bus, *args, **kwargs)`**: `RuntimeError` when python-can is not available (nothing else happens); `ValueError`
+    from `set_bus` when `bus` is not a `can.BusABC` (nothing stored, no constructor called); otherwise `self.bus = bus`, then
+    `kwargs.update(dict(rxfn=self._rx_canbus, txfn=_make_python_can_tx_func(self)))` - the tx function is made ONCE, from `self` -, then
+    the base constructor is called ONCE with `*args, **kwargs` (`stackTail`), and `None` is returned.  For ANY `MK`, `D`, `U`, `B`. -/
+theorem can_stack_init_agrees (isBus isNotif : PV → Bool) (MK D : List PV → Except PErr PV) (U B : List PV → Env → Except PErr Env)
+    (hU : Keeps U ["args", "kwargs"]) (env : Env) (avail : Bool) (sv bus rx ar kw : PV) (hF : StackFrame env avail sv bus rx ar kw) :
+    runFn (stackM isBus isNotif MK D U B) env Src.CanStack_init =
+      if avail = false then .error (.exc .RuntimeError)
+      else if isBus bus = false then .error (.exc .ValueError)
+      else stackTail MK D U B sv rx ar kw (env.set "self.bus" bus) := by
+  obtain ⟨h0, h1, h2, h3, h4, h5⟩ := hF
+  rw [can_stack_init_src]
+  cases avail
+  · simp [runFn, execBlock, execStmt, eval, h0]
+  · have s0 : execStmt (stackM isBus isNotif MK D U B) env
+        (.ite (.not_ (.var "_can_available")) (.cons (.raise "RuntimeError") .nil) .nil) = .ok (.next env) := by
+      simp [execStmt, execBlock, eval, h0]
+    have hsb := setBusCallee_eq isBus isNotif bus env h2
+    cases hb : isBus bus
+    · rw [hb] at hsb
+      have s1 : execStmt (stackM isBus isNotif MK D U B) env (.expr (.call "self.set_bus" (.cons (.var "bus") .nil))) =
+          .error (.exc .ValueError) := by
+        simp [execStmt, eval, evalArgs, h2, nb "self.set_bus" (by decide), stackM_set_bus, hsb]
+      rw [runFn, execBlock_cons_ok _ _ _ _ _ s0]
+      simp [execBlock, s1]
+    · rw [hb] at hsb
+      have s1 : execStmt (stackM isBus isNotif MK D U B) env (.expr (.call "self.set_bus" (.cons (.var "bus") .nil))) =
+          .ok (.next (env.set "self.bus" bus)) := by
+        simp [execStmt, eval, evalArgs, h2, nb "self.set_bus" (by decide), stackM_set_bus, hsb]
+      have := stack_tail_run isBus isNotif MK D U B hU (env.set "self.bus" bus) sv rx ar kw (by simp [set_get, h1])
+        (by simp [set_get, h3]) (by simp [set_get, h4]) (by simp [set_get, h5])
+      rw [runFn] at this ⊢
+      rw [execBlock_cons_ok _ _ _ _ _ s0, execBlock_cons_ok _ _ _ _ _ s1, this]
+      simp
+
+/-- what `NotifierBasedCanStack.__init__` stores before it updates `kwargs` -/
+def notifierStored (env : Env) (bus nt : PV) : Env :=
+  ((env.set "self.bus" bus).set "self.notifier" nt).set "self.buffered_reader" pnone
+
+theorem notifier_stack_init_src : Src.NotifierBasedCanStack_init =
+    .cons (.ite (.not_ (.var "_can_available")) (.cons (.raise "RuntimeError") .nil) .nil)
+    (.cons (.ite (.not_ (.call "isinstance_BusABC" (.cons (.var "bus") .nil))) (.cons (.raise "ValueError") .nil) .nil)
+    (.cons (.ite (.not_ (.call "isinstance_Notifier" (.cons (.var "notifier") .nil))) (.cons (.raise "ValueError") .nil) .nil)
+    (.cons (.assign "self.bus" (.var "bus")) (.cons (.assign "self.notifier" (.var "notifier"))
+    (.cons (.assign "self.buffered_reader" .none) (.cons updateStmt (.cons baseStmt .nil))))))) := rfl
+
+/-- **`NotifierBasedCanStack.__init__(bus, notifier, *args, **kwargs)`**: `RuntimeError` when python-can is not available; `ValueError`
+    when `bus` is not a `can.BusABC`, then `ValueError` when `notifier` is not a `can.Notifier` (in this order; nothing stored, nothing
+    called); otherwise `self.bus`, `self.notifier` are stored, `self.buffered_reader = None`, and the same `kwargs.update(...)` /
+    base-constructor tail as `CanStack.__init__` runs (`stackTail`: `rxfn = self._rx_canbus`, `txfn = _make_python_can_tx_func(self)`). -/
+theorem notifier_stack_init_agrees (isBus isNotif : PV → Bool) (MK D : List PV → Except PErr PV)
+    (U B : List PV → Env → Except PErr Env) (hU : Keeps U ["args", "kwargs"]) (env : Env) (avail : Bool) (sv bus nt rx ar kw : PV)
+    (hF : StackFrame env avail sv bus rx ar kw) (hn : env "notifier" = some nt) :
+    runFn (stackM isBus isNotif MK D U B) env Src.NotifierBasedCanStack_init =
+      if avail = false then .error (.exc .RuntimeError)
+      else if isBus bus = false then .error (.exc .ValueError)
+      else if isNotif nt = false then .error (.exc .ValueError)
+      else stackTail MK D U B sv rx ar kw (notifierStored env bus nt) := by
+  obtain ⟨h0, h1, h2, h3, h4, h5⟩ := hF
+  rw [notifier_stack_init_src]
+  cases avail
+  · simp [runFn, execBlock, execStmt, eval, h0]
+  · have s0 : execStmt (stackM isBus isNotif MK D U B) env
+        (.ite (.not_ (.var "_can_available")) (.cons (.raise "RuntimeError") .nil) .nil) = .ok (.next env) := by
+      simp [execStmt, execBlock, eval, h0]
+    cases hb : isBus bus
+    · rw [runFn, execBlock_cons_ok _ _ _ _ _ s0]
+      simp [execBlock, execStmt, eval, evalArgs, h2, nb "isinstance_BusABC" (by decide), stackM_isBus, hb]
+    · have s1 : execStmt (stackM isBus isNotif MK D U B) env
+          (.ite (.not_ (.call "isinstance_BusABC" (.cons (.var "bus") .nil))) (.cons (.raise "ValueError") .nil) .nil) =
+          .ok (.next env) := by
+        simp [execBlock, execStmt, eval, evalArgs, h2, nb "isinstance_BusABC" (by decide), stackM_isBus, hb]
+      cases hnn : isNotif nt
+      · rw [runFn, execBlock_cons_ok _ _ _ _ _ s0, execBlock_cons_ok _ _ _ _ _ s1]
+        simp [execBlock, execStmt, eval, evalArgs, hn, nb "isinstance_Notifier" (by decide), stackM_isNotif, hnn]
+      · have s2 : execStmt (stackM isBus isNotif MK D U B) env
+            (.ite (.not_ (.call "isinstance_Notifier" (.cons (.var "notifier") .nil))) (.cons (.raise "ValueError") .nil) .nil) =
+            .ok (.next env) := by
+          simp [execBlock, execStmt, eval, evalArgs, hn, nb "isinstance_Notifier" (by decide), stackM_isNotif, hnn]
+        have s3 : execStmt (stackM isBus isNotif MK D U B) env (.assign "self.bus" (.var "bus")) =
+            .ok (.next (env.set "self.bus" bus)) := by simp [execStmt, eval, h2]
+        have s4 : execStmt (stackM isBus isNotif MK D U B) (env.set "self.bus" bus) (.assign "self.notifier" (.var "notifier")) =
+            .ok (.next ((env.set "self.bus" bus).set "self.notifier" nt)) := by simp [execStmt, eval, set_get, hn]
+        have s5 : execStmt (stackM isBus isNotif MK D U B) ((env.set "self.bus" bus).set "self.notifier" nt)
+            (.assign "self.buffered_reader" .none) = .ok (.next (notifierStored env bus nt)) := by
+          simp [execStmt, eval, notifierStored]
+        have := stack_tail_run isBus isNotif MK D U B hU (notifierStored env bus nt) sv rx ar kw
+          (by simp [notifierStored, set_get, h1]) (by simp [notifierStored, set_get, h3]) (by simp [notifierStored, set_get, h4])
+          (by simp [notifierStored, set_get, h5])
+        rw [runFn] at this ⊢
+        rw [execBlock_cons_ok _ _ _ _ _ s0, execBlock_cons_ok _ _ _ _ _ s1, execBlock_cons_ok _ _ _ _ _ s2,
+          execBlock_cons_ok _ _ _ _ _ s3, execBlock_cons_ok _ _ _ _ _ s4, execBlock_cons_ok _ _ _ _ _ s5, this]
+        simp
+
+/-! ### with a recording base constructor (as `tlInitM` of LayerInit.lean, section 3) -/
+
+/-- how often the base constructor has run on this object (the history key of LayerInit.lean) -/
+def callsOf (env : Env) : Int :=
+  match env "#base_init.calls" with
+  | some (.sc (.py (.int n))) => n
+  | _ => 0
+
+/-- the base constructor as a recording procedure: it REFUSES (interpreter error) any argument list other than the expected `exp`,
+    counts its calls under `#base_init.calls`, and otherwise does `base` to the object -/
+def recBase (exp : List PV) (base : Env → Env) : List PV → Env → Except PErr Env := fun args env =>
+  if args = exp then .ok ((base env).set "#base_init.calls" (pint (callsOf env + 1)))
+  else .error (.unsupported "base constructor called with other arguments")
+
+/-- **the base constructor is called exactly once, with exactly `(*args, **kwargs)`**, after `kwargs` was updated: a successful run of
+    `CanStack.__init__` under the recording constructor ends in `base` applied to the updated object with the counter one higher; and
+    if the expected argument list is anything else the run FAILS -/
+theorem can_stack_init_calls_base_once (isBus isNotif : PV → Bool) (MK D : List PV → Except PErr PV) (U : List PV → Env → Except PErr Env)
+    (exp : List PV) (base : Env → Env) (hU : Keeps U ["args", "kwargs", "#base_init.calls"]) (env : Env) (sv bus rx ar kw tx d : PV)
+    (env1 : Env) (hF : StackFrame env true sv bus rx ar kw) (hb : isBus bus = true) (hMK : MK [sv] = .ok tx) (hD : D [rx, tx] = .ok d)
+    (hUU : U [d] (env.set "self.bus" bus) = .ok env1) :
+    runFn (stackM isBus isNotif MK D U (recBase exp base)) env Src.CanStack_init =
+      (if [ar, kw] = exp then .ok (pnone, (base env1).set "#base_init.calls" (pint (callsOf env + 1)))
+       else .error (.unsupported "base constructor called with other arguments")) := by
+  have hU' : Keeps U ["args", "kwargs"] := fun vs e e' h k hk => hU vs e e' h k (by revert hk; simp; rintro (rfl | rfl) <;> simp)
+  rw [can_stack_init_agrees isBus isNotif MK D U _ hU' env true sv bus rx ar kw hF]
+  have hc : callsOf env1 = callsOf env := by
+    have := hU _ _ _ hUU "#base_init.calls" (by decide)
+    simp [callsOf, this, set_get]
+  simp only [hb, stackTail, hMK, hD, hUU, ok_bind, recBase, hc]
+  by_cases he : [ar, kw] = exp <;> simp [he]
+
+/-! ## 6. `TransportLayer.Events.__init__`, `TransportLayerLogic._set_rxfn` (isotp/protocol.py) -/
+
+/-- `threading.Event()`: a fresh event, presented by its flag - `False` (an event is created cleared) -/
+def eventsM : Meths where
+  fn n args _ :=
+    match n, args with
+    | "threading.Event", [] => .ok (pbool false)
+    | n, _ => .error (.unsupported ("call " ++ n))
+  proc n _ _ := .error (.unsupported ("call " ++ n))
+
+/-- the seven events, in the order `__init__` creates them -/
+def eventAttrs : List String :=
+  ["self.main_thread_ready", "self.relay_thread_ready", "self.stop_requested", "self.reset_tx", "self.reset_tx_complete",
+   "self.reset_rx", "self.reset_rx_complete"]
+
+/-- the flag of each event of the model's `Events`, by attribute name -/
+def modelFlag (e : Events) : String → Option Bool
+  | "self.main_thread_ready" => some e.mainReady
+  | "self.relay_thread_ready" => some e.relayReady
+  | "self.stop_requested" => some e.stopRequested
+  | "self.reset_tx" => some e.resetTx
+  | "self.reset_tx_complete" => some e.resetTxComplete
+  | "self.reset_rx" => some e.resetRx
+  | "self.reset_rx_complete" => some e.resetRxComplete
+  | _ => none
+
+/-- the environment `Events.__init__` leaves -/
+def eventsEnv (env : Env) : Env :=
+  ((((((env.set "self.main_thread_ready" (pbool false)).set "self.relay_thread_ready" (pbool false)).set "self.stop_requested"
+    (pbool false)).set "self.reset_tx" (pbool false)).set "self.reset_tx_complete" (pbool false)).set "self.reset_rx"
+    (pbool false)).set "self.reset_rx_complete" (pbool false)
+
+/-- **`TransportLayer.Events.__init__`**: seven `threading.Event()` calls, one per attribute, nothing else -/
+theorem events_init_agrees (env : Env) : runFn eventsM env Src.TransportLayer_Events_init = .ok (pnone, eventsEnv env) := by
+  simp [runFn, Src.TransportLayer_Events_init, execBlock, execStmt, eval, evalArgs, nb "threading.Event" (by decide), eventsM, eventsEnv]
+
+/-- the seven events exist and show the model's initial flags `Events.cleared` (= the `ev` of `TL.init`); every attribute the model
+    has a flag for is one of the seven -/
+theorem events_init_shows_cleared (env : Env) :
+    (∀ k ∈ eventAttrs, ∃ b, modelFlag Events.cleared k = some b ∧ eventsEnv env k = some (pbool b)) ∧
+    (∀ k b, modelFlag Events.cleared k = some b → k ∈ eventAttrs) ∧
+    (∀ c a, (TL.init c a).ev = Events.cleared) ∧
+    (∀ k, k ∉ eventAttrs → eventsEnv env k = env k) := by
+  refine ⟨?_, ?_, fun _ _ => rfl, ?_⟩
+  · intro k hk
+    simp only [eventAttrs, List.mem_cons, List.not_mem_nil, or_false] at hk
+    rcases hk with rfl | rfl | rfl | rfl | rfl | rfl | rfl <;> exact ⟨false, rfl, by simp [eventsEnv, set_get]⟩
+  · intro k b h
+    unfold modelFlag at h
+    split at h <;> first | (cases h; done) | (simp [eventAttrs])
+  · intro k hk
+    simp only [eventAttrs, List.mem_cons, List.not_mem_nil, or_false, not_or] at hk
+    obtain ⟨a1, a2, a3, a4, a5, a6, a7⟩ := hk
+    simp [eventsEnv, set_get, a1, a2, a3, a4, a5, a6, a7]
+
+/-- the object as LayerInit.lean presents `self.Events()` (`eventsObj`: the seven flags in the order of `wrapView` - main_thread_ready,
+    relay_thread_ready, stop_requested, reset_tx, reset_rx, reset_tx_complete, reset_rx_complete): all `False` -/
+theorem events_init_obj (env : Env) :
+    (["self.main_thread_ready", "self.relay_thread_ready", "self.stop_requested", "self.reset_tx", "self.reset_rx",
+      "self.reset_tx_complete", "self.reset_rx_complete"].map (eventsEnv env)) = List.replicate 7 (some (pbool false)) := by
+  simp [eventsEnv, set_get]
+
+/-- **`TransportLayerLogic._set_rxfn(rxfn)`**: `self.rxfn = rxfn` -/
+theorem set_rxfn_agrees (M : Meths) (env : Env) (f : PV) (h : env "rxfn" = some f) :
+    runFn M env Src.TransportLayerLogic_p_set_rxfn = .ok (pnone, env.set "self.rxfn" f) := by
+  simp [runFn, Src.TransportLayerLogic_p_set_rxfn, execBlock, execStmt, eval, h]
+
+/-! ## 7. `read ∘ write`: what `write` packed is what the next `read` unpacks; fields not given to `write` keep what `read` returned -/
+
+theorem optsWf_wf (o : KOpts) (h : optsWf o) : o.wf := by
+  obtain ⟨a, b, c, d, e, f⟩ := h
+  exact ⟨by show o.flags < 2^32; omega, by show o.frameTxtime < 2^32; omega, by show o.extAddress < 256; omega,
+    by show o.txpad < 256; omega, by show o.rxpad < 256; omega, by show o.rxExtAddress < 256; omega⟩
+
+theorem upd1_wf (a : OptsArgs) (o : KOpts) (hr : rej a.optflag 0xFFFFFFFF = false) (h : optsWf o) : optsWf (upd1 a o) := by
+  unfold upd1
+  cases hn : a.optflag.isNone
+  · obtain ⟨w1, w2, w3, w4, w5, w6⟩ := h
+    exact ⟨toNat_le_given _ 0xFFFFFFFF hr hn, w2, w3, w4, w5, w6⟩
+  · exact h
+theorem upd2_wf (a : OptsArgs) (o : KOpts) (hr : rej a.frameTxtime 0xFFFFFFFF = false) (h : optsWf o) : optsWf (upd2 a o) := by
+  unfold upd2
+  cases hn : a.frameTxtime.isNone
+  · obtain ⟨w1, w2, w3, w4, w5, w6⟩ := h
+    exact ⟨w1, toNat_le_given _ 0xFFFFFFFF hr hn, w3, w4, w5, w6⟩
+  · exact h
+theorem upd3_wf (a : OptsArgs) (o : KOpts) (hr : rej a.extAddress 0xFF = false) (h : optsWf o) : optsWf (upd3 a o) := by
+  unfold upd3
+  cases hn : a.extAddress.isNone
+  · obtain ⟨w1, w2, w3, w4, w5, w6⟩ := h
+    exact ⟨by show orFlag o.flags fEXTEND_ADDR ≤ _; rw [← or_EXTEND_ADDR]; exact or_le_u32 _ _ w1 (by omega), w2,
+      toNat_le_given _ 0xFF hr hn, w4, w5, w6⟩
+  · exact h
+theorem upd4_wf (a : OptsArgs) (o : KOpts) (hr : rej a.txpad 0xFF = false) (h : optsWf o) : optsWf (upd4 a o) := by
+  unfold upd4
+  cases hn : a.txpad.isNone
+  · obtain ⟨w1, w2, w3, w4, w5, w6⟩ := h
+    exact ⟨by show orFlag o.flags fTX_PADDING ≤ _; rw [← or_TX_PADDING]; exact or_le_u32 _ _ w1 (by omega), w2, w3,
+      toNat_le_given _ 0xFF hr hn, w5, w6⟩
+  · exact h
+theorem upd5_wf (a : OptsArgs) (o : KOpts) (hr : rej a.rxpad 0xFF = false) (h : optsWf o) : optsWf (upd5 a o) := by
+  unfold upd5
+  cases hn : a.rxpad.isNone
+  · obtain ⟨w1, w2, w3, w4, w5, w6⟩ := h
+    exact ⟨by show orFlag o.flags fRX_PADDING ≤ _; rw [← or_RX_PADDING]; exact or_le_u32 _ _ w1 (by omega), w2, w3, w4,
+      toNat_le_given _ 0xFF hr hn, w6⟩
+  · exact h
+theorem upd6_wf (a : OptsArgs) (o : KOpts) (hr : rej a.rxExtAddress 0xFF = false) (h : optsWf o) : optsWf (upd6 a o) := by
+  unfold upd6
+  cases hn : a.rxExtAddress.isNone
+  · obtain ⟨w1, w2, w3, w4, w5, w6⟩ := h
+    exact ⟨by show orFlag o.flags fRX_EXT_ADDR ≤ _; rw [← or_RX_EXT_ADDR]; exact or_le_u32 _ _ w1 (by omega), w2, w3, w4, w5,
+      toNat_le_given _ 0xFF hr hn⟩
+  · exact h
+theorem upd7_wf (a : OptsArgs) (o : KOpts) (h : optsWf o) : optsWf (upd7 a o) := by
+  unfold upd7
+  cases hn : a.txStmin.isNone
+  · obtain ⟨w1, w2, w3, w4, w5, w6⟩ := h
+    exact ⟨by show orFlag o.flags fFORCE_TXSTMIN ≤ _; rw [← or_FORCE_TXSTMIN]; exact or_le_u32 _ _ w1 (by omega), w2, w3, w4, w5, w6⟩
+  · exact h
+
+/-- an accepted `GeneralOpts.write`: the object it returns fits the struct, the kernel afterwards holds exactly what was packed, and
+    the object is the read-modify-write of what `read` returned -/
+theorem writeOpts_result (s : Sock) (a : OptsArgs) (s' : Sock) (o' : KOpts) (h : writeOpts s a = .ok (s', o')) :
+    optsWf o' ∧ s'.k.opts = parseOpts (layoutOpts o') ∧ o' = upd7 a (updFields a (parseOpts (layoutOpts s.k.opts))) := by
+  rw [writeOpts_eq] at h
+  cases hr : rejFields a || rej a.txStmin 0xFFFFFFFF
+  case true => simp [hr] at h
+  simp only [hr, Bool.false_eq_true, if_false, Except.ok.injEq, Prod.mk.injEq] at h
+  obtain ⟨hs', ho'⟩ := h
+  simp only [rejFields, Bool.or_eq_false_iff] at hr
+  obtain ⟨⟨⟨⟨⟨⟨r1, r2⟩, r3⟩, r4⟩, r5⟩, r6⟩, _⟩ := hr
+  refine ⟨?_, ?_, ho'.symm⟩
+  · rw [← ho', updFields]
+    exact upd7_wf _ _ (upd6_wf _ _ r6 (upd5_wf _ _ r5 (upd4_wf _ _ r4 (upd3_wf _ _ r3 (upd2_wf _ _ r2 (upd1_wf _ _ r1 (parseOpts_wf _)))))))
+  · rw [← hs', ← ho']
+    simp [Sock.sso, Kernel.setsockopt]
+
+/-- **`read` after an accepted `write`** returns an object holding exactly the fields of the object `write` returned (the model's
+    `o'`): `struct.unpack` undoes `struct.pack` on the kernel's copy -/
+theorem general_opts_read_after_write (isSock : PV → Bool) (s : Sock) (a : OptsArgs) (s' : Sock) (o' : KOpts)
+    (h : writeOpts s a = .ok (s', o')) (env : Env) (v : PV) (hF : ReadFrame env v "CAN_ISOTP_OPTS" 12) (hv : isSock v = true) :
+    runFn (readM isSock (kGetsockopt s'.k)) env Src.GeneralOpts_read =
+      .ok (.meth "o", afterRead env (layoutOpts o') genTargets
+        [o'.flags, o'.frameTxtime, o'.extAddress, o'.txpad, o'.rxpad, o'.rxExtAddress]) := by
+  obtain ⟨wf, hk, _⟩ := writeOpts_result s a s' o' h
+  have e := parse_layout_opts o' (optsWf_wf o' wf)
+  rw [general_opts_read_agrees isSock s' env v hF hv, hk, e, e]
+
+section updProj
+variable (a : OptsArgs) (o : KOpts)
+theorem upd1_proj : (upd1 a o).frameTxtime = o.frameTxtime ∧ (upd1 a o).extAddress = o.extAddress ∧ (upd1 a o).txpad = o.txpad ∧
+    (upd1 a o).rxpad = o.rxpad ∧ (upd1 a o).rxExtAddress = o.rxExtAddress := by unfold upd1; split <;> simp
+theorem upd2_proj : (upd2 a o).frameTxtime = (if a.frameTxtime.isNone then o.frameTxtime else a.frameTxtime.intVal.toNat) ∧
+    (upd2 a o).extAddress = o.extAddress ∧ (upd2 a o).txpad = o.txpad ∧
+    (upd2 a o).rxpad = o.rxpad ∧ (upd2 a o).rxExtAddress = o.rxExtAddress := by unfold upd2; split <;> simp
+theorem upd3_proj : (upd3 a o).frameTxtime = o.frameTxtime ∧
+    (upd3 a o).extAddress = (if a.extAddress.isNone then o.extAddress else a.extAddress.intVal.toNat) ∧ (upd3 a o).txpad = o.txpad ∧
+    (upd3 a o).rxpad = o.rxpad ∧ (upd3 a o).rxExtAddress = o.rxExtAddress := by unfold upd3; split <;> simp
+theorem upd4_proj : (upd4 a o).frameTxtime = o.frameTxtime ∧ (upd4 a o).extAddress = o.extAddress ∧
+    (upd4 a o).txpad = (if a.txpad.isNone then o.txpad else a.txpad.intVal.toNat) ∧
+    (upd4 a o).rxpad = o.rxpad ∧ (upd4 a o).rxExtAddress = o.rxExtAddress := by unfold upd4; split <;> simp
+theorem upd5_proj : (upd5 a o).frameTxtime = o.frameTxtime ∧ (upd5 a o).extAddress = o.extAddress ∧ (upd5 a o).txpad = o.txpad ∧
+    (upd5 a o).rxpad = (if a.rxpad.isNone then o.rxpad else a.rxpad.intVal.toNat) ∧
+    (upd5 a o).rxExtAddress = o.rxExtAddress := by unfold upd5; split <;> simp
+theorem upd6_proj : (upd6 a o).frameTxtime = o.frameTxtime ∧ (upd6 a o).extAddress = o.extAddress ∧ (upd6 a o).txpad = o.txpad ∧
+    (upd6 a o).rxpad = o.rxpad ∧
+    (upd6 a o).rxExtAddress = (if a.rxExtAddress.isNone then o.rxExtAddress else a.rxExtAddress.intVal.toNat) := by
+  unfold upd6; split <;> simp
+theorem upd7_proj : (upd7 a o).frameTxtime = o.frameTxtime ∧ (upd7 a o).extAddress = o.extAddress ∧ (upd7 a o).txpad = o.txpad ∧
+    (upd7 a o).rxpad = o.rxpad ∧ (upd7 a o).rxExtAddress = o.rxExtAddress := by unfold upd7; split <;> simp
+end updProj
+
+/-- **every field not given to `write` keeps the value `read` returned** (and a given one holds the given value): the five non-flag
+    fields of the returned object, against `r = parseOpts (layoutOpts s.k.opts)`, the object `read` delivered; and `optflag` itself is
+    `read`'s when nothing that touches the flags is given -/
+theorem writeOpts_keeps (s : Sock) (a : OptsArgs) (s' : Sock) (o' : KOpts) (h : writeOpts s a = .ok (s', o')) :
+    o'.frameTxtime = (if a.frameTxtime.isNone then (parseOpts (layoutOpts s.k.opts)).frameTxtime else a.frameTxtime.intVal.toNat) ∧
+    o'.extAddress = (if a.extAddress.isNone then (parseOpts (layoutOpts s.k.opts)).extAddress else a.extAddress.intVal.toNat) ∧
+    o'.txpad = (if a.txpad.isNone then (parseOpts (layoutOpts s.k.opts)).txpad else a.txpad.intVal.toNat) ∧
+    o'.rxpad = (if a.rxpad.isNone then (parseOpts (layoutOpts s.k.opts)).rxpad else a.rxpad.intVal.toNat) ∧
+    o'.rxExtAddress = (if a.rxExtAddress.isNone then (parseOpts (layoutOpts s.k.opts)).rxExtAddress else a.rxExtAddress.intVal.toNat) ∧
+    (a.optflag.isNone = true → a.extAddress.isNone = true → a.txpad.isNone = true → a.rxpad.isNone = true →
+      a.rxExtAddress.isNone = true → a.txStmin.isNone = true → o'.flags = (parseOpts (layoutOpts s.k.opts)).flags) := by
+  obtain ⟨_, _, ho⟩ := writeOpts_result s a s' o' h
+  subst ho
+  generalize parseOpts (layoutOpts s.k.opts) = r
+  refine ⟨?_, ?_, ?_, ?_, ?_, ?_⟩
+  · simp only [updFields, (upd7_proj a _).1, (upd6_proj a _).1, (upd5_proj a _).1, (upd4_proj a _).1, (upd3_proj a _).1,
+      (upd2_proj a _).1, (upd1_proj a _).1]
+  · simp only [updFields, (upd7_proj a _).2.1, (upd6_proj a _).2.1, (upd5_proj a _).2.1, (upd4_proj a _).2.1, (upd3_proj a _).2.1,
+      (upd2_proj a _).2.1, (upd1_proj a _).2.1]
+  · simp only [updFields, (upd7_proj a _).2.2.1, (upd6_proj a _).2.2.1, (upd5_proj a _).2.2.1, (upd4_proj a _).2.2.1,
+      (upd3_proj a _).2.2.1, (upd2_proj a _).2.2.1, (upd1_proj a _).2.2.1]
+  · simp only [updFields, (upd7_proj a _).2.2.2.1, (upd6_proj a _).2.2.2.1, (upd5_proj a _).2.2.2.1, (upd4_proj a _).2.2.2.1,
+      (upd3_proj a _).2.2.2.1, (upd2_proj a _).2.2.2.1, (upd1_proj a _).2.2.2.1]
+  · simp only [updFields, (upd7_proj a _).2.2.2.2, (upd6_proj a _).2.2.2.2, (upd5_proj a _).2.2.2.2, (upd4_proj a _).2.2.2.2,
+      (upd3_proj a _).2.2.2.2, (upd2_proj a _).2.2.2.2, (upd1_proj a _).2.2.2.2]
+  · intro n1 n3 n4 n5 n6 n7
+    simp [updFields, upd1, upd2, upd3, upd4, upd5, upd6, upd7, n1, n3, n4, n5, n6, n7]
+    split <;> rfl
+
+/-- the same for `FlowControlOpts` and `LinkLayerOpts`: the kernel afterwards holds what was packed, and each field is the given value
+    or, when not given, what `read` returned -/
+theorem writeFc_result (s : Sock) (x y z : PyVal) (s' : Sock) (o' : KFc) (h : writeFc s x y z = .ok (s', o')) :
+    s'.k.fc = parseFc (layoutFc o') ∧
+    o'.bs = (if x.isNone then (parseFc (layoutFc s.k.fc)).bs else x.intVal.toNat) ∧
+    o'.stmin = (if y.isNone then (parseFc (layoutFc s.k.fc)).stmin else y.intVal.toNat) ∧
+    o'.wftmax = (if z.isNone then (parseFc (layoutFc s.k.fc)).wftmax else z.intVal.toNat) := by
+  rw [writeFc_eq] at h
+  cases hr : rej x 0xFF || rej y 0xFF || rej z 0xFF
+  case true => simp [hr] at h
+  simp only [hr, Bool.false_eq_true, if_false, Except.ok.injEq, Prod.mk.injEq] at h
+  obtain ⟨hs', ho'⟩ := h
+  subst ho' hs'
+  refine ⟨by simp [Sock.sso, Kernel.setsockopt, optRECV_FC, optOPTS], ?_, ?_, ?_⟩ <;>
+    (simp only [fcUpd1, fcUpd2, fcUpd3]; cases x.isNone <;> cases y.isNone <;> cases z.isNone <;> rfl)
+
+theorem writeLl_result (s : Sock) (x y z : PyVal) (s' : Sock) (o' : KLl) (h : writeLl s x y z = .ok (s', o')) :
+    s'.k.ll = parseLl (layoutLl o') ∧
+    o'.mtu = (if x.isNone then (parseLl (layoutLl s.k.ll)).mtu else x.intVal.toNat) ∧
+    o'.txDl = (if y.isNone then (parseLl (layoutLl s.k.ll)).txDl else y.intVal.toNat) ∧
+    o'.txFlags = (if z.isNone then (parseLl (layoutLl s.k.ll)).txFlags else z.intVal.toNat) := by
+  rw [writeLl_eq] at h
+  cases hr : rej x 0xFF || rej y 0xFF || rej z 0xFF
+  case true => simp [hr] at h
+  simp only [hr, Bool.false_eq_true, if_false, Except.ok.injEq, Prod.mk.injEq] at h
+  obtain ⟨hs', ho'⟩ := h
+  subst ho' hs'
+  refine ⟨by simp [Sock.sso, Kernel.setsockopt, optRECV_FC, optOPTS, optLL_OPTS], ?_, ?_, ?_⟩ <;>
+    (simp only [llUpd1, llUpd2, llUpd3]; cases x.isNone <;> cases y.isNone <;> cases z.isNone <;> rfl)
+
+/-- `read` after an accepted `FlowControlOpts.write` / `LinkLayerOpts.write` delivers the kernel's copy of what was packed -/
+theorem flow_control_opts_read_after_write (isSock : PV → Bool) (s : Sock) (x y z : PyVal) (s' : Sock) (o' : KFc)
+    (h : writeFc s x y z = .ok (s', o')) (env : Env) (v : PV) (hF : ReadFrame env v "CAN_ISOTP_RECV_FC" 3) (hv : isSock v = true) :
+    runFn (readM isSock (kGetsockopt s'.k)) env Src.FlowControlOpts_read =
+      .ok (.meth "o", afterRead env (layoutFc (parseFc (layoutFc o'))) fcTargets
+        [(parseFc (layoutFc (parseFc (layoutFc o')))).bs, (parseFc (layoutFc (parseFc (layoutFc o')))).stmin,
+         (parseFc (layoutFc (parseFc (layoutFc o')))).wftmax]) := by
+  rw [flow_control_opts_read_agrees isSock s' env v hF hv, (writeFc_result s x y z s' o' h).1]
+
+theorem link_layer_opts_read_after_write (isSock : PV → Bool) (s : Sock) (x y z : PyVal) (s' : Sock) (o' : KLl)
+    (h : writeLl s x y z = .ok (s', o')) (env : Env) (v : PV) (hF : ReadFrame env v "CAN_ISOTP_LL_OPTS" 3) (hv : isSock v = true) :
+    runFn (readM isSock (kGetsockopt s'.k)) env Src.LinkLayerOpts_read =
+      .ok (.meth "o", afterRead env (layoutLl (parseLl (layoutLl o'))) llTargets
+        [(parseLl (layoutLl (parseLl (layoutLl o')))).mtu, (parseLl (layoutLl (parseLl (layoutLl o')))).txDl,
+         (parseLl (layoutLl (parseLl (layoutLl o')))).txFlags]) := by
+  rw [link_layer_opts_read_agrees isSock s' env v hF hv, (writeLl_result s x y z s' o' h).1]
+
+/-! ## 8. non-vacuity: the hypotheses are satisfiable, and concrete runs -/
+
+/-- a reader's frame: the socket object, the module constants as dumped, the class's `struct_size` -/
+def exReadEnv (v : PV) (size : Nat) : Env := fun k =>
+  match k with
+  | "s" => some v
+  | "SOL_CAN_ISOTP" => some (pint (solCanIsotp : Nat))
+  | "cls.struct_size" => some (pint (size : Nat))
+  | _ => constEnv k
+
+def exIsSock (v : PV) : Bool := v == .meth "s"
+
+example : ReadFrame (exReadEnv (.meth "s") 12) (.meth "s") "CAN_ISOTP_OPTS" 12 := ⟨rfl, rfl, rfl, rfl⟩
+example : ReadFrame (exReadEnv (.meth "s") 3) (.meth "s") "CAN_ISOTP_RECV_FC" 3 := ⟨rfl, rfl, rfl, rfl⟩
+example : ReadFrame (exReadEnv (.meth "s") 3) (.meth "s") "CAN_ISOTP_LL_OPTS" 3 := ⟨rfl, rfl, rfl, rfl⟩
+
+/-- group 1: reading a fresh kernel socket gives the kernel defaults (`txpad = rxpad = 0xCC`); a non-socket is refused; an accepted
+    `write` exists and `read` after it returns the written pad byte while `frame_txtime` (not given) keeps the value read before -/
+example :
+    (∃ env', runFn (readM exIsSock (kGetsockopt ({} : Sock).k)) (exReadEnv (.meth "s") 12) Src.GeneralOpts_read = .ok (.meth "o", env') ∧
+      env' "o.txpad" = some (pint 0xCC) ∧ env' "o.optflag" = some (pint 0)) ∧
+    runFn (readM exIsSock (kGetsockopt ({} : Sock).k)) (exReadEnv (pint 5) 12) Src.GeneralOpts_read = .error (.exc .ValueError) ∧
+    (∃ s' o', writeOpts ({} : Sock) { txpad := .int 0x55 } = .ok (s', o') ∧ o'.txpad = 0x55 ∧ o'.frameTxtime = 0 ∧
+      ∃ env', runFn (readM exIsSock (kGetsockopt s'.k)) (exReadEnv (.meth "s") 12) Src.GeneralOpts_read = .ok (.meth "o", env') ∧
+        env' "o.txpad" = some (pint 0x55)) := by
+  refine ⟨⟨_, general_opts_read_agrees exIsSock {} _ _ ⟨rfl, rfl, rfl, rfl⟩ rfl, ?_, ?_⟩, ?_, ?_⟩
+  · simp [afterRead, genTargets, bindAll, set_get]; decide
+  · simp [afterRead, genTargets, bindAll, set_get]; decide
+  · exact read_rejects_non_socket exIsSock _ _ (pint 5) ⟨rfl, rfl, rfl, rfl⟩ rfl
+  · have hw : ∃ s' o', writeOpts ({} : Sock) { txpad := .int 0x55 } = .ok (s', o') ∧ o'.txpad = 0x55 ∧ o'.frameTxtime = 0 :=
+      ⟨_, _, rfl, by decide, by decide⟩
+    obtain ⟨s', o', h, h1, h2⟩ := hw
+    refine ⟨s', o', h, h1, h2, _, general_opts_read_after_write exIsSock _ _ s' o' h _ _ ⟨rfl, rfl, rfl, rfl⟩ rfl, ?_⟩
+    simp [afterRead, genTargets, bindAll, set_get, h1]
+
+/-- group 2: the frame of `socket.__init__(timeout=0.5)` on Linux (`AF_CAN = 29`, `SOCK_DGRAM = 2`, `CAN_ISOTP = 6`) -/
+def exSockEnv (t : PyVal) : Env := fun k =>
+  match k with
+  | "self" => some (.meth "self")
+  | "timeout" => some (.sc (.py t))
+  | "socket_module.AF_CAN" => some (pint 29)
+  | "socket_module.SOCK_DGRAM" => some (pint 2)
+  | "socket_module.CAN_ISOTP" => some (pint 6)
+  | _ => none
+
+/-- a kernel socket constructor that insists on `(AF_CAN, SOCK_DGRAM, CAN_ISOTP)`, and a `settimeout` that records its argument -/
+def exK : List PV → Except PErr PV
+  | [a, b, c] => if a = pint 29 ∧ b = pint 2 ∧ c = pint 6 then .ok (.meth "ksock") else .error (.exc .TypeError)
+  | _ => .error (.exc .TypeError)
+def exST : List PV → Env → Except PErr Env
+  | [t], env => .ok (env.set "#timeout" t)
+  | _, _ => .error (.exc .TypeError)
+
+example :
+    (∃ env', runFn (sockInitM true exK exST) (exSockEnv (.float 1 2)) Src.socket_init = .ok (pnone, env') ∧
+      env' "#timeout" = some (.sc (.py (.float 1 2))) ∧ env' "self.bound" = some (pbool false) ∧
+      env' "self._socket" = some (.meth "ksock")) ∧
+    (∃ env', runFn (sockInitM true exK exST) (exSockEnv .none) Src.socket_init = .ok (pnone, env') ∧ env' "#timeout" = none) ∧
+    (∃ env', runFn (sockInitM true exK exST) (exSockEnv (.int 0)) Src.socket_init = .ok (pnone, env') ∧ env' "#timeout" = none) ∧
+    runFn (sockInitM false exK exST) (exSockEnv (.int 3)) Src.socket_init = .error (.exc .NotImplementedError) := by
+  refine ⟨⟨(sockInitEnv (exSockEnv (.float 1 2)) (.meth "ksock")).set "#timeout" (.sc (.py (.float 1 2))), ?_, ?_⟩,
+    ⟨sockInitEnv (exSockEnv .none) (.meth "ksock"), ?_, ?_⟩, ⟨sockInitEnv (exSockEnv (.int 0)) (.meth "ksock"), ?_, ?_⟩, ?_⟩
+  · rw [socket_init_agrees true exK exST _ (.float 1 2) (pint 29) (pint 2) (pint 6) rfl rfl rfl rfl]
+    simp [exK, timeoutCond_float, exST]
+  · simp [set_get, sockInitEnv]
+  · rw [socket_init_agrees true exK exST _ .none (pint 29) (pint 2) (pint 6) rfl rfl rfl rfl]
+    simp [exK, timeoutCond_none]
+  · simp [set_get, sockInitEnv, exSockEnv]
+  · rw [socket_init_agrees true exK exST _ (.int 0) (pint 29) (pint 2) (pint 6) rfl rfl rfl rfl]
+    simp [exK, timeoutCond_int]
+  · simp [set_get, sockInitEnv, exSockEnv]
+  · rw [socket_init_agrees false exK exST _ (.int 3) (pint 29) (pint 2) (pint 6) rfl rfl rfl rfl]
+    rfl
+
+/-- group 3: the constructor's frame exists for every model message (`can_message_init_shows` runs on it) -/
+example (m : CanMsg) : ∃ env', runFn noMeths (canMsgCtorEnv m) Src.CanMessage_init = .ok (pnone, env') ∧ SelfShows env' m :=
+  can_message_init_shows noMeths m
+
+/-- group 4: the adapter's frame exists for every model message (`PyCan.isotpMsgEnv`), and a run with the counting `send` -/
+example (m : CanMsg) : IsotpMsgShows (isotpMsgEnv m) m := isotpMsgEnv_shows m
+
+def exMkTxEnv : Env := fun k =>
+  match k with
+  | "owner" => some (.meth "owner")
+  | "can.Message.__init__" => some (.meth "can.Message.__init__")
+  | "python_can_tx_canbus_3plus" => some (.meth "python_can_tx_canbus_3plus")
+  | "python_can_tx_canbus_3minus" => some (.meth "python_can_tx_canbus_3minus")
+  | _ => none
+
+example : MkTxFrame exMkTxEnv (.meth "owner") (.meth "can.Message.__init__") (.meth "python_can_tx_canbus_3plus")
+    (.meth "python_can_tx_canbus_3minus") := ⟨rfl, rfl, rfl, rfl⟩
+
+/-- both branches of `make_python_can_tx_func_branches` are reachable (tests `True` / `False` in the place of the membership test) -/
+example (Sg At P : List PV → Except PErr PV) :
+    (∀ ps, eval (mkTxM Sg At P) (exMkTxEnv.set "message_input_args" ps) .tt = .ok (pbool true)) ∧
+    (∀ ps, eval (mkTxM Sg At P) (exMkTxEnv.set "message_input_args" ps) .ff = .ok (pbool false)) :=
+  ⟨fun _ => by simp [eval], fun _ => by simp [eval]⟩
+
+/-- group 5: a frame of `CanStack.__init__` / `NotifierBasedCanStack.__init__`, an `update` that keeps the names, and a run under the
+    recording base constructor -/
+def exStackEnv (avail : Bool) : Env := fun k =>
+  match k with
+  | "_can_available" => some (pbool avail)
+  | "self" => some (.meth "self")
+  | "bus" => some (.meth "bus")
+  | "notifier" => some (.meth "notifier")
+  | "self._rx_canbus" => some (.meth "self._rx_canbus")
+  | "args" => some (.meth "args")
+  | "kwargs" => some (.meth "kwargs")
+  | _ => none
+
+def exU : List PV → Env → Except PErr Env := fun vs env => .ok (env.set "#kwargs.update" (.list [.py (.int vs.length)]))
+
+theorem exU_keeps : Keeps exU ["args", "kwargs", "#base_init.calls"] := by
+  intro vs e e' h k hk
+  simp only [exU, Except.ok.injEq] at h
+  subst h
+  have : k ≠ "#kwargs.update" := by rintro rfl; revert hk; decide
+  simp [set_get, this]
+
+example (avail : Bool) : StackFrame (exStackEnv avail) avail (.meth "self") (.meth "bus") (.meth "self._rx_canbus") (.meth "args")
+    (.meth "kwargs") := ⟨rfl, rfl, rfl, rfl, rfl, rfl⟩
+
+example :
+    (∃ env', runFn (stackM (· == .meth "bus") (· == .meth "notifier") (fun _ => .ok (.meth "tx")) (fun _ => .ok (.meth "dict")) exU
+        (recBase [.meth "args", .meth "kwargs"] id)) (exStackEnv true) Src.CanStack_init = .ok (pnone, env') ∧
+      env' "#base_init.calls" = some (pint 1) ∧ env' "self.bus" = some (.meth "bus")) ∧
+    runFn (stackM (· == .meth "bus") (· == .meth "notifier") (fun _ => .ok (.meth "tx")) (fun _ => .ok (.meth "dict")) exU
+        (recBase [.meth "kwargs", .meth "args"] id)) (exStackEnv true) Src.CanStack_init =
+      .error (.unsupported "base constructor called with other arguments") ∧
+    runFn (stackM (· == .meth "bus") (· == .meth "notifier") (fun _ => .ok (.meth "tx")) (fun _ => .ok (.meth "dict")) exU
+        (recBase [.meth "args", .meth "kwargs"] id)) (exStackEnv false) Src.CanStack_init = .error (.exc .RuntimeError) ∧
+    runFn (stackM (fun _ => false) (· == .meth "notifier") (fun _ => .ok (.meth "tx")) (fun _ => .ok (.meth "dict")) exU
+        (recBase [.meth "args", .meth "kwargs"] id)) (exStackEnv true) Src.CanStack_init = .error (.exc .ValueError) ∧
+    runFn (stackM (· == .meth "bus") (fun _ => false) (fun _ => .ok (.meth "tx")) (fun _ => .ok (.meth "dict")) exU
+        (recBase [.meth "args", .meth "kwargs"] id)) (exStackEnv true) Src.NotifierBasedCanStack_init = .error (.exc .ValueError) := by
+  have hU' : Keeps exU ["args", "kwargs"] := fun vs e e' h k hk => exU_keeps vs e e' h k (by revert hk; simp; rintro (rfl | rfl) <;> simp)
+  refine ⟨⟨(id (((exStackEnv true).set "self.bus" (.meth "bus")).set "#kwargs.update" (.list [.py (.int 1)]))).set "#base_init.calls"
+    (pint (callsOf (exStackEnv true) + 1)), ?_, ?_, ?_⟩, ?_, ?_, ?_, ?_⟩
+  · exact (can_stack_init_calls_base_once _ _ _ _ exU _ id exU_keeps (exStackEnv true) _ _ _ _ _ (.meth "tx") (.meth "dict") _
+      ⟨rfl, rfl, rfl, rfl, rfl, rfl⟩ rfl rfl rfl rfl).trans (if_pos rfl)
+  · simp [set_get, callsOf, exStackEnv]
+  · simp [set_get]
+  · exact (can_stack_init_calls_base_once _ _ _ _ exU _ id exU_keeps (exStackEnv true) _ _ _ _ _ (.meth "tx") (.meth "dict") _
+      ⟨rfl, rfl, rfl, rfl, rfl, rfl⟩ rfl rfl rfl rfl).trans (if_neg (by decide))
+  · rw [can_stack_init_agrees _ _ _ _ exU _ hU' (exStackEnv false) false _ _ _ _ _ ⟨rfl, rfl, rfl, rfl, rfl, rfl⟩]; rfl
+  · rw [can_stack_init_agrees _ _ _ _ exU _ hU' (exStackEnv true) true _ _ _ _ _ ⟨rfl, rfl, rfl, rfl, rfl, rfl⟩]; rfl
+  · rw [notifier_stack_init_agrees _ _ _ _ exU _ hU' (exStackEnv true) true _ _ (.meth "notifier") _ _ _
+      ⟨rfl, rfl, rfl, rfl, rfl, rfl⟩ rfl]; rfl
+
+/-- group 6: seven attributes, all cleared -/
+example : eventAttrs.length = 7 ∧ ∀ k ∈ eventAttrs, eventsEnv (fun _ => none) k = some (pbool false) := by
+  refine ⟨rfl, ?_⟩
+  intro k hk
+  obtain ⟨b, hb, he⟩ := (events_init_shows_cleared (fun _ => none)).1 k hk
+  simp only [eventAttrs, List.mem_cons, List.not_mem_nil, or_false] at hk
+  rcases hk with rfl | rfl | rfl | rfl | rfl | rfl | rfl <;> simp [eventsEnv, set_get]
+
 end Isotp.PyAgree.Ctors
+
+#print axioms Isotp.PyAgree.Ctors.nb
+#print axioms Isotp.PyAgree.Ctors.bindAll_other
+#print axioms Isotp.PyAgree.Ctors.assert_is_socket_agrees
+#print axioms Isotp.PyAgree.Ctors.assertIsSocket_eq
+#print axioms Isotp.PyAgree.Ctors.length_layoutOpts
+#print axioms Isotp.PyAgree.Ctors.length_layoutFc
+#print axioms Isotp.PyAgree.Ctors.length_layoutLl
+#print axioms Isotp.PyAgree.Ctors.structUnpack_opts
+#print axioms Isotp.PyAgree.Ctors.structUnpack_fc
+#print axioms Isotp.PyAgree.Ctors.structUnpack_ll
+#print axioms Isotp.PyAgree.Ctors.packArg_some
+#print axioms Isotp.PyAgree.Ctors.structUnpack_pack_LLBBBB
+#print axioms Isotp.PyAgree.Ctors.structUnpack_pack_BBB
+#print axioms Isotp.PyAgree.Ctors.structUnpack_pack_L
+#print axioms Isotp.PyAgree.Ctors.unpackName_gen
+#print axioms Isotp.PyAgree.Ctors.unpackName_fc
+#print axioms Isotp.PyAgree.Ctors.unpackName_ll
+#print axioms Isotp.PyAgree.Ctors.readM_cls
+#print axioms Isotp.PyAgree.Ctors.readM_gso
+#print axioms Isotp.PyAgree.Ctors.readM_unpack
+#print axioms Isotp.PyAgree.Ctors.readM_assert
+#print axioms Isotp.PyAgree.Ctors.readM_gen
+#print axioms Isotp.PyAgree.Ctors.readM_fc
+#print axioms Isotp.PyAgree.Ctors.readM_ll
+#print axioms Isotp.PyAgree.Ctors.unpackProc_o
+#print axioms Isotp.PyAgree.Ctors.general_opts_read_src
+#print axioms Isotp.PyAgree.Ctors.flow_control_opts_read_src
+#print axioms Isotp.PyAgree.Ctors.link_layer_opts_read_src
+#print axioms Isotp.PyAgree.Ctors.reader_run
+#print axioms Isotp.PyAgree.Ctors.general_opts_read_run
+#print axioms Isotp.PyAgree.Ctors.flow_control_opts_read_run
+#print axioms Isotp.PyAgree.Ctors.link_layer_opts_read_run
+#print axioms Isotp.PyAgree.Ctors.kGetsockopt_opts
+#print axioms Isotp.PyAgree.Ctors.kGetsockopt_fc
+#print axioms Isotp.PyAgree.Ctors.kGetsockopt_ll
+#print axioms Isotp.PyAgree.Ctors.general_opts_read_agrees
+#print axioms Isotp.PyAgree.Ctors.flow_control_opts_read_agrees
+#print axioms Isotp.PyAgree.Ctors.link_layer_opts_read_agrees
+#print axioms Isotp.PyAgree.Ctors.read_rejects_non_socket
+#print axioms Isotp.PyAgree.Ctors.general_opts_read_attrs
+#print axioms Isotp.PyAgree.Ctors.flow_control_opts_read_attrs
+#print axioms Isotp.PyAgree.Ctors.link_layer_opts_read_attrs
+#print axioms Isotp.PyAgree.Ctors.general_opts_init_agrees
+#print axioms Isotp.PyAgree.Ctors.flow_control_opts_init_agrees
+#print axioms Isotp.PyAgree.Ctors.link_layer_opts_init_agrees
+#print axioms Isotp.PyAgree.Ctors.init_fields_are_read_targets
+#print axioms Isotp.PyAgree.Ctors.timeoutCond_int
+#print axioms Isotp.PyAgree.Ctors.timeoutCond_float
+#print axioms Isotp.PyAgree.Ctors.timeoutCond_none
+#print axioms Isotp.PyAgree.Ctors.eval_timeoutCond
+#print axioms Isotp.PyAgree.Ctors.socket_init_agrees
+#print axioms Isotp.PyAgree.Ctors.socket_init_is_initial
+#print axioms Isotp.PyAgree.Ctors.socket_settimeout_agrees
+#print axioms Isotp.PyAgree.Ctors.socket_gettimeout_agrees
+#print axioms Isotp.PyAgree.Ctors.socket_fileno_agrees
+#print axioms Isotp.PyAgree.Ctors.can_message_init_agrees
+#print axioms Isotp.PyAgree.Ctors.can_message_init_shows
+#print axioms Isotp.PyAgree.Ctors.kwName_3minus
+#print axioms Isotp.PyAgree.Ctors.kwName_3plus
+#print axioms Isotp.PyAgree.Ctors.kws3minus_no_dlc
+#print axioms Isotp.PyAgree.Ctors.kws3minus_vs_3plus
+#print axioms Isotp.PyAgree.Ctors.pyCanTx3minusM_lookups
+#print axioms Isotp.PyAgree.Ctors.python_can_tx_3minus_agrees
+#print axioms Isotp.PyAgree.Ctors.python_can_tx_3minus_once
+#print axioms Isotp.PyAgree.Ctors.python_can_tx_3minus_same_values
+#print axioms Isotp.PyAgree.Ctors.make_python_can_tx_func_src
+#print axioms Isotp.PyAgree.Ctors.make_python_can_tx_func_branches
+#print axioms Isotp.PyAgree.Ctors.make_python_can_tx_func_in_gap
+#print axioms Isotp.PyAgree.Ctors.can_stack_set_bus_agrees
+#print axioms Isotp.PyAgree.Ctors.setBusCallee_eq
+#print axioms Isotp.PyAgree.Ctors.stackM_isBus
+#print axioms Isotp.PyAgree.Ctors.stackM_isNotif
+#print axioms Isotp.PyAgree.Ctors.stackM_mk
+#print axioms Isotp.PyAgree.Ctors.stackM_dict
+#print axioms Isotp.PyAgree.Ctors.stackM_set_bus
+#print axioms Isotp.PyAgree.Ctors.stackM_update
+#print axioms Isotp.PyAgree.Ctors.stackM_base
+#print axioms Isotp.PyAgree.Ctors.stack_tail_run
+#print axioms Isotp.PyAgree.Ctors.can_stack_init_src
+#print axioms Isotp.PyAgree.Ctors.can_stack_init_agrees
+#print axioms Isotp.PyAgree.Ctors.notifier_stack_init_src
+#print axioms Isotp.PyAgree.Ctors.notifier_stack_init_agrees
+#print axioms Isotp.PyAgree.Ctors.can_stack_init_calls_base_once
+#print axioms Isotp.PyAgree.Ctors.events_init_agrees
+#print axioms Isotp.PyAgree.Ctors.events_init_shows_cleared
+#print axioms Isotp.PyAgree.Ctors.events_init_obj
+#print axioms Isotp.PyAgree.Ctors.set_rxfn_agrees
+#print axioms Isotp.PyAgree.Ctors.optsWf_wf
+#print axioms Isotp.PyAgree.Ctors.upd1_wf
+#print axioms Isotp.PyAgree.Ctors.upd2_wf
+#print axioms Isotp.PyAgree.Ctors.upd3_wf
+#print axioms Isotp.PyAgree.Ctors.upd4_wf
+#print axioms Isotp.PyAgree.Ctors.upd5_wf
+#print axioms Isotp.PyAgree.Ctors.upd6_wf
+#print axioms Isotp.PyAgree.Ctors.upd7_wf
+#print axioms Isotp.PyAgree.Ctors.writeOpts_result
+#print axioms Isotp.PyAgree.Ctors.general_opts_read_after_write
+#print axioms Isotp.PyAgree.Ctors.upd1_proj
+#print axioms Isotp.PyAgree.Ctors.upd2_proj
+#print axioms Isotp.PyAgree.Ctors.upd3_proj
+#print axioms Isotp.PyAgree.Ctors.upd4_proj
+#print axioms Isotp.PyAgree.Ctors.upd5_proj
+#print axioms Isotp.PyAgree.Ctors.upd6_proj
+#print axioms Isotp.PyAgree.Ctors.upd7_proj
+#print axioms Isotp.PyAgree.Ctors.writeOpts_keeps
+#print axioms Isotp.PyAgree.Ctors.writeFc_result
+#print axioms Isotp.PyAgree.Ctors.writeLl_result
+#print axioms Isotp.PyAgree.Ctors.flow_control_opts_read_after_write
+#print axioms Isotp.PyAgree.Ctors.link_layer_opts_read_after_write
+#print axioms Isotp.PyAgree.Ctors.exU_keeps
